@@ -77,8 +77,12 @@ def py_decision(ctx, sc):
                        construct="guarded decision:" + ast.unparse(t),
                        msg=f"the decision comparison is only reached when `{ast.unparse(t)}` is {pol}")
     left, right, op = cmpv.left, cmpv.right, cmpv.op
-    if op in ("Lt", "LtE"):
-        left, right, op = right, left, {"Lt": "Gt", "LtE": "GtE"}[op]
+
+    def matrix_side(v):
+        return (isinstance(v, ScalV) and v.m is not None) or isinstance(v, ArrV)
+    # orient the comparison as  NIS <op> bound  (the side that is a 1x1 matrix product is the NIS)
+    if matrix_side(right) and not matrix_side(left):
+        left, right, op = right, left, {"Lt": "Gt", "LtE": "GtE", "Gt": "Lt", "GtE": "LtE"}.get(op, op)
     nis = left.m if isinstance(left, ScalV) else (left.form if isinstance(left, ArrV) else None)
     thr = right.s if isinstance(right, ScalV) else None
     if nis is None or thr is None:
@@ -133,9 +137,19 @@ def run(ctx: core.Ctx) -> int:
     ev = scenarios.events_of(it, sq)
     rec = [e for e in ev if e["kind"] == "store" and "innovations" in e.get("target", "")]
     rets = [e for e in ev if e["kind"] == "return"]
-    early = [e for e in rets if any("remove_innovation" in ast.unparse(t) and pol for t, pol, _ in e["rpath"])]
+    def decided(t, pol):
+        """(mentions the decision, the decision's truth value on this path)"""
+        while isinstance(t, ast.UnaryOp) and isinstance(t.op, ast.Not):
+            t, pol = t.operand, not pol
+        return "remove_innovation" in ast.unparse(t), pol
+    early = [e for e in rets if any(decided(t, pol) == (True, True) for t, pol, _ in e["rpath"])]
     late = [e for e in rets if e not in early]
-    ctx.floor("EARLY", len(early), 1, "rejection return paths in sensor_model")
+    if calls and not early:
+        # the decision is taken (remove_innovation is called from sensor_model) but no path returns under it: a rejected reading is applied all the same
+        ctx.oblige("EARLY", f"{PY}:{sq}", "a path returns when the decision says discard", False, file=PY, func=sq, construct="no rejection return",
+                   msg="sensor_model calls remove_innovation but no return is taken when it says discard: rejected readings are applied like accepted ones")
+    else:
+        ctx.floor("EARLY", len(early), 1, "rejection return paths in sensor_model")
     for e in early:
         v = e["value"]
         okv = isinstance(v, TupleV) and len(v.items) == 2 and _is_input(v.items[0], "x") and _is_input(v.items[1], "P")
